@@ -3,6 +3,12 @@ import GB.C01.Status
 import GB.Generated.Facts
 import GB.C02.WsEpilogue
 import GB.C02.Stable
+import GB.C02.WithCtx
+import GB.C02.CloseOnce
+import GB.C02.Paths
+import GB.C02.WsStall
+import GB.C02.HttpEpilogue
+import GB.C02.Product
 /-
   C02 — every bridged call terminates promptly and releases its resources.
 
@@ -249,3 +255,497 @@ theorem C02_aware_returns :
     (GB.LTS.run (step { cs := true, ss := true, incAware := true, outAware := true }) (init Nat Nat)
       (C02_d1_trace ++ [.incRecvRet (.err 1), .ret none])).map isDone = some true := by
   decide
+
+/-! ### Round 5 (a): the `withCtx` helper goroutines are inside the model (GB/C02/WithCtx.lean)
+
+  One direction (Recv or Send) of one stream adapter: caller, helper goroutines, result channels, the context, and
+  `released` (handler returned / stream context cancelled / connection closed). ENVIRONMENT LAW, explicit in
+  `GB.WCtx.own`: the blocked library primitive returns once `released` holds. Everything below is over ALL runs:
+  any caller (any number of calls and abandoned helpers), any interleaving. -/
+
+/-- No helper ever blocks on its result channel: capacity ≥ 1 and one channel per call ⇒ whenever a helper's
+    primitive has returned, its send `errChan <- f()` is enabled (so the goroutine exits: no leak once the
+    primitive returns). -/
+theorem C02_withctx_never_blocks (p : GB.WCtx.Params) (hf : p.fresh = true) (hc : 1 ≤ p.cap) (s : GB.WCtx.State)
+    (hr : GB.WCtx.Reachable p s) (i : Nat) (hm : (i, true) ∈ s.helpers) :
+    (GB.WCtx.step p s (.deliver i)).isSome = true :=
+  GB.WCtx.deliver_enabled p hf hc s (GB.WCtx.inv_reach p hf s hr) i hm
+
+/-- No cross-talk: every call that returned a result returned the result of the primitive invocation IT started
+    (`got` = (call, tag of the invocation that produced the value)); a result abandoned by an earlier call can never
+    be delivered into a later one. Buffered results belong to calls that are over and whose helper has exited. -/
+theorem C02_withctx_no_crosstalk (p : GB.WCtx.Params) (hf : p.fresh = true) (s : GB.WCtx.State)
+    (hr : GB.WCtx.Reachable p s) :
+    (∀ g ∈ s.got, g.1 = g.2) ∧ (∀ b ∈ s.bufs, b.1 = b.2 ∧ ∀ h ∈ s.helpers, h.1 ≠ b.1) := by
+  have hi := GB.WCtx.inv_reach p hf s hr
+  exact ⟨hi.got, fun b hb => ⟨(hi.buf b hb).1, (hi.buf b hb).2.2⟩⟩
+
+/-- At most one helper per direction is outstanding, given Forward's discipline (`stopAfterCtx`: no further call in
+    a direction after a ctx error there — `C02_no_call_after_error`): while a call is in progress the only helper
+    is its own, and between calls there is none unless the direction has been abandoned. -/
+theorem C02_withctx_one_outstanding (p : GB.WCtx.Params) (hf : p.fresh = true) (hst : p.stopAfterCtx = true)
+    (s : GB.WCtx.State) (hr : GB.WCtx.Reachable p s) :
+    s.helpers.length ≤ 1 ∧ (∀ k, s.caller = some k → ∀ h ∈ s.helpers, h.1 = k) ∧
+    (s.caller = none → s.stopped = false → s.helpers = []) := by
+  have hd := GB.WCtx.dinv_reach p hf hst s hr
+  exact ⟨hd.le1, hd.cur, hd.idle⟩
+
+/-- Release: once the handler has returned / the stream was closed, the helpers drain — a schedule of at most
+    2·(outstanding helpers) helper steps, each one an OWN step (environment law for `primRet`, `never_blocks` for
+    the send), leads to a state without helper goroutines. -/
+theorem C02_withctx_drains (p : GB.WCtx.Params) (hf : p.fresh = true) (hc : 1 ≤ p.cap) (s : GB.WCtx.State)
+    (hr : GB.WCtx.Reachable p s) (hrel : s.released = true) :
+    ∃ ls s', GB.LTS.run (GB.WCtx.step p) s ls = some s' ∧ s'.helpers = [] ∧ ls.length ≤ 2 * s.helpers.length ∧
+      ls.all GB.WCtx.helperLabel = true :=
+  GB.WCtx.drain p hf hc (2 * s.helpers.length) s (GB.WCtx.inv_reach p hf s hr) hrel (GB.WCtx.hrank_le s)
+
+/-- …and in EVERY interleaving without a new call: helper steps taken + work left ≤ work there was, and while a
+    helper is left in a released state an own helper step is enabled (rank argument, all schedules). -/
+theorem C02_withctx_release_all_schedules (p : GB.WCtx.Params) (hf : p.fresh = true) (hc : 1 ≤ p.cap)
+    (s : GB.WCtx.State) (hr : GB.WCtx.Reachable p s) (hrel : s.released = true) :
+    (∀ ls s', GB.LTS.run (GB.WCtx.step p) s ls = some s' → ls.all (· != .call) = true →
+        (ls.filter GB.WCtx.helperLabel).length + GB.WCtx.hrank s' ≤ GB.WCtx.hrank s) ∧
+    (s.helpers ≠ [] → ∃ l s', GB.WCtx.helperLabel l = true ∧ GB.WCtx.own s l = true ∧
+        GB.WCtx.step p s l = some s' ∧ GB.WCtx.hrank s' < GB.WCtx.hrank s) := by
+  refine ⟨fun ls s' h ha => GB.WCtx.bounded_any_schedule p ls s s' h ha, fun hne => ?_⟩
+  obtain ⟨l, s', h1, h2, h3⟩ := GB.WCtx.helper_progress p hf hc s (GB.WCtx.inv_reach p hf s hr) hrel hne
+  exact ⟨l, s', h1, h2, h3, GB.WCtx.helper_step_decreases p s s' l h1 h3⟩
+
+/-- `Close` = `closeFunc` = sync.OnceFunc(cancel): however often Close is called (Forward's deferred Close, the
+    ctx.Done branch of every abandoned Recv/Send), the stream's cancel func runs at most once, and it has run iff
+    the stream is released. -/
+theorem C02_withctx_cancel_once (p : GB.WCtx.Params) (hf : p.fresh = true) (s : GB.WCtx.State)
+    (hr : GB.WCtx.Reachable p s) : s.cancels ≤ 1 ∧ (s.released = true ↔ s.cancels = 1) :=
+  (GB.WCtx.inv_reach p hf s hr).once
+
+/-- AdaptedClientStream: a Recv/Send that is abandoned because the context is done closes the stream itself. -/
+theorem C02_withctx_close_on_done (p : GB.WCtx.Params) (hc : p.closeOnDone = true) (s s' : GB.WCtx.State)
+    (hs : GB.WCtx.step p s .takeCtx = some s') : s'.released = true := by
+  simp only [GB.WCtx.step] at hs
+  split at hs
+  · split at hs <;> simp at hs
+    subst hs; simp [hc, GB.WCtx.doClose]
+  · simp at hs
+
+/-- Negative witness (seeded change C02-m3, kernel-checked): with an UNBUFFERED result channel the helper of an
+    abandoned call is reachable in the state "primitive returned, handler returned", and from there on — whatever
+    anybody does, for ever — it is still blocked in `errChan <- f()`. -/
+theorem C02_withctx_unbuffered_leaks :
+    GB.LTS.run (GB.WCtx.step GB.WCtx.unbuffered) GB.WCtx.init [.call, .ctxDone, .takeCtx, .close, .primRet 0]
+      = some GB.WCtx.leaked ∧
+    ∀ ls s, GB.LTS.run (GB.WCtx.step GB.WCtx.unbuffered) GB.WCtx.leaked ls = some s →
+      s.helpers = [(0, true)] ∧ GB.WCtx.step GB.WCtx.unbuffered s (.deliver 0) = none :=
+  ⟨GB.WCtx.leaked_reached, GB.WCtx.leaked_forever⟩
+
+/-- Negative witness (kernel-checked): with ONE channel shared by the calls of a stream, the result of an abandoned
+    call 0 is returned by the later call 1. -/
+theorem C02_withctx_shared_crosstalk :
+    (GB.LTS.run (GB.WCtx.step GB.WCtx.shared) GB.WCtx.init
+      [.call, .ctxDone, .takeCtx, .primRet 0, .deliver 0, .call, .recvResult]).map (·.got) = some [(1, 0)] := by
+  decide
+
+/-- Facts tie (regenerated from proxy.go, webbridge/http.go, grpcadapter/stream.go, grpcadapter/conn.go): every
+    withCtx helper makes its result channel inside the call with capacity 1, its goroutine is exactly
+    `errChan <- f()`, its select has exactly the two cases ctx.Done / receive from that channel; only the
+    AdaptedClientStream one calls `s.Close()` in the ctx.Done branch; Close is `s.closeFunc()` and closeFunc is
+    `sync.OnceFunc(cancel)` of a `context.WithCancel`. -/
+theorem C02_facts_withctx_shape :
+    GB.Generated.withCtxCap =
+      [("grpcServerStream.withCtx", 1), ("webbridge.withCtx", 1), ("AdaptedClientStream.withCtx", 1)] ∧
+    GB.Generated.withCtxLocalChan.all (·.2) = true ∧ GB.Generated.withCtxLocalChan.length = 3 ∧
+    GB.Generated.withCtxOneSend.all (·.2) = true ∧ GB.Generated.withCtxOneSend.length = 3 ∧
+    GB.Generated.withCtxSelect.all (fun x => decide (x.2 = ["ctxDone", "recvErrChan"])) = true ∧
+    GB.Generated.withCtxSelect.length = 3 ∧
+    GB.Generated.withCtxDoneCalls =
+      [("grpcServerStream.withCtx", ["rpcutil.ContextError", "ctx.Err"]),
+       ("webbridge.withCtx", ["rpcutil.ContextError", "ctx.Err"]),
+       ("AdaptedClientStream.withCtx", ["s.Close", "rpcutil.ContextError", "ctx.Err"])] ∧
+    GB.Generated.clientStreamClose =
+      ["Close: s.closeFunc()", "cancel: context.WithCancel", "closeFunc: sync.OnceFunc(cancel)"] := by
+  decide
+
+/-- The parameters of the helper model, taken from the regenerated facts (`i` = index of the wrapper in the fact
+    lists: 0 proxy grpcServerStream, 1 webbridge, 2 AdaptedClientStream). -/
+def C02_withCtxParams (i : Nat) (stop : Bool) : GB.WCtx.Params :=
+  { cap := ((GB.Generated.withCtxCap.map (·.2))[i]?).getD 0,
+    fresh := ((GB.Generated.withCtxLocalChan.map (·.2))[i]?).getD false &&
+             ((GB.Generated.withCtxOneSend.map (·.2))[i]?).getD false,
+    closeOnDone := ((GB.Generated.withCtxDoneCalls.map (fun x => x.2.contains "s.Close"))[i]?).getD false,
+    stopAfterCtx := stop }
+
+/-- …so the theorems above apply to the three wrappers as they are in the repository now (no hypothesis left
+    except the environment law): never blocked on the result channel, no cross-talk, and — the outgoing stream —
+    an abandoned Recv/Send closes the stream. -/
+theorem C02_withctx_repo (i : Nat) (hi : i < 3) (stop : Bool) (s : GB.WCtx.State)
+    (hr : GB.WCtx.Reachable (C02_withCtxParams i stop) s) :
+    (∀ k, (k, true) ∈ s.helpers → (GB.WCtx.step (C02_withCtxParams i stop) s (.deliver k)).isSome = true) ∧
+    (∀ g ∈ s.got, g.1 = g.2) ∧
+    (s.released = true → ∃ ls s', GB.LTS.run (GB.WCtx.step (C02_withCtxParams i stop)) s ls = some s' ∧
+        s'.helpers = [] ∧ ls.length ≤ 2 * s.helpers.length) ∧
+    (C02_withCtxParams 2 stop).closeOnDone = true := by
+  have hf : (C02_withCtxParams i stop).fresh = true := by
+    have : ∀ j, j < 3 → (C02_withCtxParams j stop).fresh = true := by cases stop <;> decide
+    exact this i hi
+  have hc : 1 ≤ (C02_withCtxParams i stop).cap := by
+    have : ∀ j, j < 3 → 1 ≤ (C02_withCtxParams j stop).cap := by cases stop <;> decide
+    exact this i hi
+  refine ⟨fun k hk => C02_withctx_never_blocks _ hf hc s hr k hk, (C02_withctx_no_crosstalk _ hf s hr).1, ?_, by cases stop <;> decide⟩
+  intro hrel
+  obtain ⟨ls, s', h1, h2, h3, _⟩ := C02_withctx_drains _ hf hc s hr hrel
+  exact ⟨ls, s', h1, h2, h3⟩
+
+/-! ### Round 5 (b): `Close` of the outgoing stream — exactly once, and it releases what is still pending -/
+
+/-- In every run of Forward (all kinds, peers, faults, interleavings) outgoing.Close() is called at most once, never
+    without a stream; and once Forward has returned it has been called EXACTLY once iff the stream was created. -/
+theorem C02_close_exactly_once (p : Params) (tr : List (Label M E)) (s : State M E) (h : Run p tr s) :
+    closeCount tr ≤ 1 ∧ (closeCount tr = 1 → streamOpened tr = true) ∧
+    (isDone s = true → closeCount tr = if streamOpened tr = true then 1 else 0) := by
+  have C := cinv_run h
+  have S := h.sinv
+  have ho := streamOpened_eq tr
+  refine ⟨?_, ?_, ?_⟩
+  · rw [C.cnt]; split <;> omega
+  · intro h1
+    rw [ho, C.opened]
+    rw [C.cnt] at h1
+    cases hout : s.out <;> simp [hout] at h1 ⊢
+  · intro hd
+    have hnc : s.out ≠ .opened := by
+      unfold isDone at hd
+      cases hm : s.main <;> simp [hm] at hd
+      exact S.out_closed (by simp [hm])
+    rw [ho, C.opened, C.cnt]
+    cases hout : s.out <;> simp [hout] at hnc ⊢
+
+/-- After Forward has returned every outgoing operation still pending is released: Forward called Close exactly
+    once (`C02_close_exactly_once`; Close = label `close` of the helper model with the AdaptedClientStream
+    parameters), the stream's cancel func has run exactly once, and from ANY state of the outgoing stream's helper
+    model in which that has happened the helpers of abandoned Recv/Send calls drain by own steps (rank ≤ 2 per
+    helper) — in every interleaving, see `C02_withctx_release_all_schedules`. -/
+theorem C02_close_releases_outgoing (p : Params) (tr : List (Label M E)) (s : State M E) (h : Run p tr s)
+    (hd : isDone s = true) (ho : streamOpened tr = true) (stop : Bool) :
+    closeCount tr = 1 ∧
+    ∀ a : GB.WCtx.State, GB.WCtx.Reachable (C02_withCtxParams 2 stop) a → a.cancels = 1 →
+      a.released = true ∧
+      ∃ ls a', GB.LTS.run (GB.WCtx.step (C02_withCtxParams 2 stop)) a ls = some a' ∧ a'.helpers = [] ∧
+        ls.length ≤ 2 * a.helpers.length ∧ ls.all GB.WCtx.helperLabel = true := by
+  refine ⟨by rw [(C02_close_exactly_once p tr s h).2.2 hd, ho]; rfl, ?_⟩
+  intro a ha hc1
+  have hf : (C02_withCtxParams 2 stop).fresh = true := by cases stop <;> decide
+  have hc : 1 ≤ (C02_withCtxParams 2 stop).cap := by cases stop <;> decide
+  have hrel := (C02_withctx_cancel_once _ hf a ha).2.2 hc1
+  exact ⟨hrel, C02_withctx_drains _ hf hc a ha hrel⟩
+
+/-! ### Round 5 (c): every way out of the four web handlers and of Forward (GB/C02/Paths.lean) -/
+
+/-- Facts tie: the programs (top-level statements as defer / ret / do tokens) regenerated from the sources. A moved
+    defer, a new early return, a dropped finish()/close(done)/wg.Wait() changes this list. -/
+theorem C02_facts_programs :
+    GB.Generated.c02Programs =
+      [("TranscodedHTTPBridge.ServeHTTP",
+          [("ret", []), ("ret", ["respond"]), ("ret", ["respond", "respond"]), ("do", ["forward"]), ("do", ["finish"]),
+           ("do", ["respond"])]),
+       ("GRPCWebBridge.ServeHTTP", [("ret", ["respond"]), ("do", ["forward"]), ("do", ["finish"]), ("do", ["respond"])]),
+       ("TranscodedWebSocketBridge.ServeHTTP",
+          [("ret", []), ("do", ["upgrade"]), ("ret", ["respond"]), ("defer", ["netClose"]), ("do", ["goReadLoop"]),
+           ("do", ["forward"]), ("do", ["sendClose"]), ("do", ["closeDone"]), ("do", ["wgWait"])]),
+       ("GRPCWebSocketBridge.ServeHTTP",
+          [("do", ["upgrade"]), ("ret", ["respond"]), ("defer", ["netClose"]), ("do", ["goReadLoop"]),
+           ("defer", ["closeDone", "wgWait"]), ("ret", []), ("ret", ["sendTrailer"]), ("do", ["forward"]),
+           ("do", ["sendTrailer"])]),
+       ("ProxyForwarder.Forward",
+          [("defer", ["wgWait"]), ("defer", ["cancel"]), ("ret", []), ("defer", ["outClose"]), ("do", ["goPump"]),
+           ("ret", [])])] ∧
+    GB.Generated.c02StreamSites = ["grpcadapter/forwarder.go:stream"] := by
+  decide
+
+/-- The resource-release clause on EVERY way out of the four web entry points (normal end, forwarding error,
+    client gone — these three leave through the end of the function —, and each early return before or after the
+    resources exist), computed from the regenerated programs:
+    * WebSocket handlers: a way out that started ReadLoop executes close(stream.done) exactly once, then wg.Wait()
+      exactly once, then closes the connection as its last action; Forward runs at most once, after `go ReadLoop` and
+      before close(done); a way out that did not start ReadLoop has no Forward, no close(done), no wg.Wait();
+      inside the ReadLoop goroutine cancel() precedes wg.Done(), so after wg.Wait() the handler's ctx is cancelled.
+    * HTTP handlers: Forward at most once; after it finish() exactly once and before the handler writes anything;
+      the early returns come before Forward (no outgoing stream exists: `c02StreamSites` — streams are created in
+      forwarder.go only, and closed there exactly once: `C02_close_exactly_once`).
+    * Forward: every way out ends with cancel() then wg.Wait(); after the stream exists outgoing.Close() comes first.
+    The order close(done) → wg.Wait() is what `C02_ws_epilogue_terminates` needs; `C02_cleanup` gives the
+    ctx-cancelled / pumps-gone part inside Forward. -/
+theorem C02_release_on_every_path :
+    (GB.Paths.paths (GB.Paths.lookup "TranscodedHTTPBridge.ServeHTTP" GB.Generated.c02Programs)).all GB.Paths.httpPathOK = true ∧
+    (GB.Paths.paths (GB.Paths.lookup "GRPCWebBridge.ServeHTTP" GB.Generated.c02Programs)).all GB.Paths.httpPathOK = true ∧
+    (GB.Paths.paths (GB.Paths.lookup "TranscodedWebSocketBridge.ServeHTTP" GB.Generated.c02Programs)).all GB.Paths.wsPathOK = true ∧
+    (GB.Paths.paths (GB.Paths.lookup "GRPCWebSocketBridge.ServeHTTP" GB.Generated.c02Programs)).all GB.Paths.wsPathOK = true ∧
+    (GB.Paths.paths (GB.Paths.lookup "ProxyForwarder.Forward" GB.Generated.c02Programs)).all GB.Paths.fwdPathOK = true ∧
+    ((GB.Generated.c02GoBodies.filter (fun x => decide (x.1 = "TranscodedWebSocketBridge.ServeHTTP") ||
+        decide (x.1 = "GRPCWebSocketBridge.ServeHTTP"))).all
+      (fun x => decide (x.2.length = 1) && x.2.all GB.Paths.goBodyOK)) = true ∧
+    (GB.Paths.paths (GB.Paths.lookup "TranscodedHTTPBridge.ServeHTTP" GB.Generated.c02Programs)).length = 4 ∧
+    (GB.Paths.paths (GB.Paths.lookup "GRPCWebBridge.ServeHTTP" GB.Generated.c02Programs)).length = 2 ∧
+    (GB.Paths.paths (GB.Paths.lookup "TranscodedWebSocketBridge.ServeHTTP" GB.Generated.c02Programs)).length = 3 ∧
+    (GB.Paths.paths (GB.Paths.lookup "GRPCWebSocketBridge.ServeHTTP" GB.Generated.c02Programs)).length = 4 := by
+  decide
+
+/-- Non-vacuity / what the computed ways out look like (normal way out of each handler). -/
+theorem C02_paths_examples :
+    (GB.Paths.paths (GB.Paths.lookup "TranscodedWebSocketBridge.ServeHTTP" GB.Generated.c02Programs)).getLast? =
+      some ["upgrade", "goReadLoop", "forward", "sendClose", "closeDone", "wgWait", "netClose"] ∧
+    (GB.Paths.paths (GB.Paths.lookup "GRPCWebSocketBridge.ServeHTTP" GB.Generated.c02Programs)) =
+      [["upgrade", "respond"], ["upgrade", "goReadLoop", "closeDone", "wgWait", "netClose"],
+       ["upgrade", "goReadLoop", "sendTrailer", "closeDone", "wgWait", "netClose"],
+       ["upgrade", "goReadLoop", "forward", "sendTrailer", "closeDone", "wgWait", "netClose"]] ∧
+    (GB.Paths.paths (GB.Paths.lookup "ProxyForwarder.Forward" GB.Generated.c02Programs)) =
+      [["cancel", "wgWait"], ["goPump", "outClose", "cancel", "wgWait"], ["goPump", "outClose", "cancel", "wgWait"]] ∧
+    -- a handler with the defers swapped is rejected
+    GB.Paths.wsPathOK ["upgrade", "goReadLoop", "forward", "wgWait", "closeDone", "netClose"] = false ∧
+    GB.Paths.httpPathOK ["forward", "respond", "finish"] = false := by
+  decide
+
+/-! ### Round 5 (d): Forward's discipline towards the adapters (`stopAfterCtx` of the helper model) -/
+
+/-- In every run of Forward: once a stream operation (Incoming.Recv / Incoming.Send / Outgoing.Stream /
+    outgoing.Send / outgoing.Recv) has returned an error — in particular the ctx error of an abandoned withCtx call —
+    Forward never calls that operation again: no later step of the run is a call of it. Hence per direction at most
+    one abandoned helper exists (`C02_withctx_one_outstanding`). -/
+theorem C02_no_call_after_error (p : Params) (tr : List (Label M E)) (s : State M E) (h : Run p tr s) (o : Op)
+    (he : errSeen o tr = true) : ∀ l s', step p s l = some s' → callOf l ≠ some o :=
+  fun l s' hs => dead_no_call p o s s' l h.sinv (errSeen_dead h o he) hs
+
+/-- non-vacuity: a run in which outgoing.Send failed; the request pump has exited and a further Send is refused -/
+example : (GB.LTS.run (step (M := Nat) (E := Nat) { cs := true, ss := true, incAware := true, outAware := true }) (init Nat Nat)
+    [.outStreamCall, .outStreamRet .ok, .incRecvCall, .incRecvRet (.msg 1), .outSendCall 1, .outSendRet (.err 7),
+     .outSendCall 1]).isNone = true := by decide
+
+/-! ### Round 5 (e): a WebSocket client that has stopped reading (seeded change C02-m9; twin of D35)
+
+  GB/C02/WsStall.lean: the start of the epilogue when a response write abandoned by withCtx is still blocked inside
+  gws WriteMessage (holding gws's write mutex) because the client does not read. -/
+
+/-- Real order (deadline armed BEFORE the close frame is written): for a reading or a stalled client, with or without
+    a blocked writer, every step decreases `rank` (≤ 7) and some step of the bridge is enabled until the handler has
+    returned — the blocked write and ReadLoop end by the connection deadline, nothing waits for the client. -/
+theorem C02_ws_stall_terminates (stalled writer : Bool) (s : GB.WsStall.State)
+    (hr : GB.LTS.Reachable (GB.WsStall.step true stalled) (GB.WsStall.init true writer) s) :
+    GB.WsStall.rank s ≤ 7 ∧
+    (∀ l s', GB.WsStall.step true stalled s l = some s' → GB.WsStall.rank s' < GB.WsStall.rank s) ∧
+    (s.h ≠ .returned → ∃ l, (GB.WsStall.step true stalled s l).isSome = true) := by
+  have hinv : GB.WsStall.Inv s ∧ GB.WsStall.rank s ≤ 7 := by
+    refine GB.LTS.invariant (GB.WsStall.step true stalled) (GB.WsStall.init true writer)
+      (fun s => GB.WsStall.Inv s ∧ GB.WsStall.rank s ≤ 7) ⟨GB.WsStall.inv_init writer, ?_⟩ ?_ s hr
+    · cases writer <;> simp [GB.WsStall.rank, GB.WsStall.init, GB.WsStall.hRank]
+    · intro s l s' ⟨hi, hk⟩ hs
+      exact ⟨GB.WsStall.inv_step stalled s s' l hi hs,
+        Nat.le_trans (Nat.le_of_lt (GB.WsStall.rank_decreases stalled s s' l hi hs)) hk⟩
+  exact ⟨hinv.2, fun l s' hs => GB.WsStall.rank_decreases stalled s s' l hinv.1 hs,
+    GB.WsStall.progress stalled s hinv.1⟩
+
+/-- Swapped statements (close frame written BEFORE the deadline is armed), kernel-checked negative witness: stalled
+    client + blocked writer ⇒ in the very first state NO step is enabled — the handler waits for the write mutex, the
+    writer and ReadLoop wait for a deadline nobody will set: handler, ReadLoop and helper stay until the client's TCP
+    connection goes away (seeded change C02-m9; harness case `web en=ws sc=stall`). -/
+theorem C02_ws_stall_swapped_deadlocks :
+    ∀ l : GB.WsStall.Label, GB.WsStall.step false true (GB.WsStall.init false true) l = none := by
+  intro l; cases l <;> decide
+
+/-- Facts tie (regenerated from webbridge/websocket.go and grpcweb.go): closeGracefully arms the connection deadline
+    before its write; sendTrailer arms it before it takes the send mutex and again before its writes (D35). -/
+theorem C02_facts_ws_close_order :
+    GB.Generated.wsCloseOrder =
+      [("closeGracefully", ["SetDeadline", "WriteMessage"]),
+       ("gRPCWebSocketStream.sendTrailer", ["SetDeadline", "Lock", "SetDeadline", "WriteMessage", "closeGracefully"])] := by
+  decide
+
+/-- the order parameter of the stall model, from the fact: in both functions the first operation is SetDeadline -/
+def C02_wsDeadlineFirst : Bool := GB.Generated.wsCloseOrder.all (fun x => decide (x.2.head? = some "SetDeadline"))
+
+theorem C02_ws_stall_repo (stalled writer : Bool) (s : GB.WsStall.State)
+    (hr : GB.LTS.Reachable (GB.WsStall.step C02_wsDeadlineFirst stalled) (GB.WsStall.init C02_wsDeadlineFirst writer) s)
+    (hn : s.h ≠ .returned) : ∃ l, (GB.WsStall.step C02_wsDeadlineFirst stalled s l).isSome = true := by
+  have e : C02_wsDeadlineFirst = true := by decide
+  rw [e] at hr ⊢
+  exact (C02_ws_stall_terminates stalled writer s hr).2.2 hn
+
+/-! ### Round 5 (f): the epilogue of the two HTTP handlers (GB/C02/HttpEpilogue.lean)
+
+  After Forward returned at most one Send helper abandoned by withCtx can still be inside `send` (by
+  `C02_withctx_one_outstanding`); the handler takes the response over with finish() and only then writes. -/
+
+/-- For every state the abandoned helper can be in when Forward returns (none / before the mutex / writing / exited),
+    in every interleaving: every step decreases `rank` (≤ 4); once the handler has taken the response over the helper
+    is not writing and never starts a write (`lateWrites = 0`: nothing is written behind the handler's back or after
+    ServeHTTP returned); and — under the environment law that a blocked response Write returns (client reads, server
+    WriteTimeout, connection gone) — an own step is enabled until the handler has returned. -/
+theorem C02_http_epilogue_terminates (w : GB.HttpEp.WPc) (s : GB.HttpEp.State)
+    (hr : GB.LTS.Reachable (GB.HttpEp.step true) (GB.HttpEp.init w) s) :
+    GB.HttpEp.rank s ≤ 4 ∧
+    (∀ l s', GB.HttpEp.step true s l = some s' → GB.HttpEp.rank s' < GB.HttpEp.rank s) ∧
+    (s.h ≠ .finish → s.w ≠ .writing) ∧ s.lateWrites = 0 ∧
+    (s.h ≠ .returned → ∃ l, GB.HttpEp.own true l = true ∧ (GB.HttpEp.step true s l).isSome = true) := by
+  have hinv : GB.HttpEp.Inv s ∧ GB.HttpEp.rank s ≤ 4 := by
+    refine GB.LTS.invariant (GB.HttpEp.step true) (GB.HttpEp.init w)
+      (fun s => GB.HttpEp.Inv s ∧ GB.HttpEp.rank s ≤ 4) ⟨GB.HttpEp.inv_init w, ?_⟩ ?_ s hr
+    · cases w <;> simp [GB.HttpEp.rank, GB.HttpEp.init, GB.HttpEp.hRank, GB.HttpEp.wRank]
+    · intro s l s' ⟨hi, hk⟩ hs
+      exact ⟨GB.HttpEp.inv_step s s' l hi hs,
+        Nat.le_trans (Nat.le_of_lt (GB.HttpEp.rank_decreases true s s' l hs)) hk⟩
+  obtain ⟨⟨h1, h2, h3⟩, hk⟩ := hinv
+  exact ⟨hk, fun l s' hs => GB.HttpEp.rank_decreases true s s' l hs, fun hne => h2 (h1 hne), h3,
+    GB.HttpEp.progress s⟩
+
+/-- Negative witnesses (kernel-checked). (1) A send that does not look at `finished` under the mutex writes after the
+    handler has taken the response over. (2) What is NOT guaranteed: while the helper's Write is blocked (client not
+    reading) the handler waits in finish(); without the environment law no own step exists — the HTTP entry points are
+    bounded only by the server's WriteTimeout / the client going away (assumption in props/C02.json, cf. D35). -/
+theorem C02_http_epilogue_negative :
+    ((GB.LTS.run (GB.HttpEp.step false) (GB.HttpEp.init .beforeLock) [.hFinish, .wLock]).map (·.lateWrites) = some 1) ∧
+    (∀ l, GB.HttpEp.own false l = true → GB.HttpEp.step true (GB.HttpEp.init .writing) l = none) := by
+  refine ⟨by decide, ?_⟩
+  intro l; cases l <;> decide
+
+/-- Facts tie (regenerated from webbridge/http.go and grpcweb.go): in both `send` functions the first response write
+    comes after `mu.Lock()` and after the `if s.finished { return }` check; both `finish` are Lock, finished = true,
+    Unlock; and in both handlers finish() comes between Forward and the handler's own write (`C02_release_on_every_path`). -/
+theorem C02_facts_http_send_order :
+    GB.Generated.httpSendOrder =
+      [("httpStream.send", ["waitRead", "Lock", "deferUnlock", "ifFinishedReturn", "Write", "Write", "Write"]),
+       ("gRPCWebStream.send", ["Lock", "deferUnlock", "ifFinishedReturn", "Write"]),
+       ("httpStream.finish", ["Lock", "setFinished", "Unlock"]),
+       ("gRPCWebStream.finish", ["Lock", "setFinished", "Unlock"])] := by
+  decide
+
+/-- the `checked` parameter of the HTTP epilogue model, from the fact -/
+def C02_httpSendChecked : Bool :=
+  (GB.Generated.httpSendOrder.filter (fun x => decide (x.1 = "httpStream.send") || decide (x.1 = "gRPCWebStream.send"))).all
+    (fun x => decide ((x.2.filter (fun t => decide (t = "Lock") || decide (t = "ifFinishedReturn") || decide (t = "Write"))).take 3
+      = ["Lock", "ifFinishedReturn", "Write"]))
+
+theorem C02_http_epilogue_repo (w : GB.HttpEp.WPc) (s : GB.HttpEp.State)
+    (hr : GB.LTS.Reachable (GB.HttpEp.step C02_httpSendChecked) (GB.HttpEp.init w) s) :
+    s.lateWrites = 0 ∧ (s.h ≠ .finish → s.w ≠ .writing) := by
+  have e : C02_httpSendChecked = true := by decide
+  rw [e] at hr
+  have := C02_http_epilogue_terminates w s hr
+  exact ⟨this.2.2.2.1, this.2.2.1⟩
+
+/-! ### Round 5 (g): Forward × adapter as ONE system (GB/C02/Product.lean)
+
+  The Forward LTS and the withCtx helper model of one stream operation `o` (Incoming.Recv / Incoming.Send /
+  Outgoing.Stream / outgoing.Send / outgoing.Recv), synchronised on the calls and returns of `o`, on the context
+  becoming done (external cancellation or the deferred cancel()), and on `close` (outgoing.Close() for the outgoing
+  operations, the return of Forward for the incoming ones); helper steps interleave freely. All statements are over
+  every reachable state of the product: all RPC kinds, peers, faults and interleavings of Forward's goroutines WITH the
+  helper goroutines. -/
+
+/-- The adapter never refuses a call Forward makes: whenever Forward can call `o`, no other call of `o` is in
+    progress (the `sendActive/recvActive` guard cannot fire) and the direction has not been abandoned. -/
+theorem C02_product_call_never_refused (p : Params) (q : GB.WCtx.Params) (hf : q.fresh = true) (o : Op)
+    (s : GB.Prod.PState M E) (hr : GB.Prod.PReachable p q o s) (l : Label M E) (f' : State M E)
+    (hs : step p s.1 l = some f') (hc : callOf l = some o) : (GB.WCtx.step q s.2 .call).isSome = true := by
+  obtain ⟨hS, _, hY⟩ := GB.Prod.pinv_reach p q hf o s hr
+  have hp := (pend_call p o s.1 f' l hS hs hc).2
+  have h1 : s.2.caller = none := by
+    have := hY.caller; rw [hp] at this
+    cases hcl : s.2.caller <;> simp_all
+  have h2 : s.2.stopped = false := by
+    cases hst : s.2.stopped with
+    | false => rfl
+    | true => exact absurd hc (dead_no_call p o s.1 f' l hS (hY.stopped hst) hs)
+  simp [GB.WCtx.step, h1, h2]
+
+/-- ctx-awareness of the adapter is a THEOREM of the helper model (it was the hypothesis `incAware/outAware` of
+    `C02_progress`): whenever a goroutine of Forward is inside `o` and the forwarding context is done, the adapter's
+    ctx.Done branch is enabled — the call returns without the peer. -/
+theorem C02_product_ctx_return_enabled (p : Params) (q : GB.WCtx.Params) (hf : q.fresh = true) (o : Op)
+    (s : GB.Prod.PState M E) (hr : GB.Prod.PReachable p q o s) (hp : pend o s.1 = true)
+    (hc : s.1.ctx.isSome = true) : (GB.WCtx.step q s.2 .takeCtx).isSome = true := by
+  obtain ⟨_, _, hY⟩ := GB.Prod.pinv_reach p q hf o s hr
+  have h1 := hY.caller; rw [hp] at h1
+  have h2 := hY.ctx; rw [hc] at h2
+  cases hcl : s.2.caller with
+  | none => simp [hcl] at h1
+  | some k => simp [GB.WCtx.step, hcl, h2]
+
+/-- After outgoing.Close() (outgoing operations) / after Forward has returned (incoming operations) the adapter is
+    released — in particular at the return of Forward whenever the stream existed — … -/
+theorem C02_product_released_when_closed (p : Params) (q : GB.WCtx.Params) (hf : q.fresh = true) (o : Op)
+    (s : GB.Prod.PState M E) (hr : GB.Prod.PReachable p q o s) (hc : closedFor o s.1 = true) :
+    s.2.released = true :=
+  (GB.Prod.pinv_reach p q hf o s hr).2.2.closed hc
+
+/-- …and every operation of the stream still pending then (the helpers of abandoned calls) is released: the product
+    has a run of at most 2·(outstanding helpers) helper steps, each an own step under the environment law, that leaves
+    Forward where it is and ends with no helper goroutine. (All schedules: `C02_withctx_release_all_schedules`.) -/
+theorem C02_product_drain_after_close (p : Params) (q : GB.WCtx.Params) (hf : q.fresh = true) (hcap : 1 ≤ q.cap)
+    (o : Op) (s : GB.Prod.PState M E) (hr : GB.Prod.PReachable p q o s) (hc : closedFor o s.1 = true) :
+    ∃ (ls : List GB.WCtx.Label) (s' : GB.Prod.PState M E),
+      GB.LTS.run (GB.Prod.pstep p q o) s (ls.map GB.Prod.PLabel.helper) = some s' ∧ s'.1 = s.1 ∧
+      s'.2.helpers = [] ∧ ls.length ≤ 2 * s.2.helpers.length := by
+  obtain ⟨_, hA, hY⟩ := GB.Prod.pinv_reach p q hf o s hr
+  obtain ⟨ls, a', h1, h2, h3, h4⟩ :=
+    GB.WCtx.drain q hf hcap (2 * s.2.helpers.length) s.2 hA (hY.closed hc) (GB.WCtx.hrank_le s.2)
+  exact ⟨ls, (s.1, a'), GB.Prod.lift_helper_run p q o s.1 ls s.2 a' h1 h4, rfl, h2, h3⟩
+
+/-- At the return of Forward: if the stream was created, every outgoing operation is released (instance of the two
+    theorems above with `C02_cleanup`: at return the stream is not left open). -/
+theorem C02_product_return_releases_outgoing (p : Params) (q : GB.WCtx.Params) (hf : q.fresh = true) (o : Op)
+    (ho : o.outgoing = true) (s : GB.Prod.PState M E) (hr : GB.Prod.PReachable p q o s) (hd : isDone s.1 = true)
+    (hex : s.1.out ≠ .none) : s.2.released = true := by
+  obtain ⟨hS, _, hY⟩ := GB.Prod.pinv_reach p q hf o s hr
+  apply hY.closed
+  have hno : s.1.out ≠ .opened := by
+    unfold isDone at hd
+    cases hm : s.1.main <;> simp [hm] at hd
+    exact hS.out_closed (by simp [hm])
+  simp only [closedFor, ho, if_true]
+  cases hout : s.1.out <;> simp_all
+
+/-- …for the three wrappers as they are in the repository (parameters from the regenerated facts): every call Forward
+    makes is accepted, a done context always releases a call in progress, and a closed stream / returned Forward leaves
+    only helpers that drain. -/
+theorem C02_product_repo (p : Params) (i : Nat) (hi : i < 3) (stop : Bool) (o : Op)
+    (s : GB.Prod.PState M E) (hr : GB.Prod.PReachable p (C02_withCtxParams i stop) o s) :
+    (∀ l f', step p s.1 l = some f' → callOf l = some o →
+        (GB.WCtx.step (C02_withCtxParams i stop) s.2 .call).isSome = true) ∧
+    (pend o s.1 = true → s.1.ctx.isSome = true →
+        (GB.WCtx.step (C02_withCtxParams i stop) s.2 .takeCtx).isSome = true) ∧
+    (closedFor o s.1 = true → s.2.released = true) := by
+  have hf : (C02_withCtxParams i stop).fresh = true := by
+    have : ∀ j, j < 3 → (C02_withCtxParams j stop).fresh = true := by cases stop <;> decide
+    exact this i hi
+  exact ⟨fun l f' hs hc => C02_product_call_never_refused p _ hf o s hr l f' hs hc,
+    fun hp hc => C02_product_ctx_return_enabled p _ hf o s hr hp hc,
+    fun hc => C02_product_released_when_closed p _ hf o s hr hc⟩
+
+/-- non-vacuity: a product run — bidi call, the request pump's outgoing.Send is abandoned through the ctx branch after
+    a cancellation (the AdaptedClientStream closes itself), its helper is still inside SendMsg when Forward's deferred
+    Close runs; afterwards the helper's primitive returns and it delivers into its own buffered channel and exits. -/
+example :
+    ((GB.LTS.run (GB.Prod.pstep (M := Nat) (E := Nat) { cs := true, ss := true, incAware := true, outAware := true }
+        (GB.WCtx.repo true true) .outSend) GB.Prod.pinit
+      [.fwd .outStreamCall false, .fwd (.outStreamRet .ok) false, .fwd .incRecvCall false, .fwd (.incRecvRet (.msg 1)) false,
+       .fwd (.outSendCall 1) false, .fwd (.ctxDone .canceled) false, .fwd (.outSendRet (.err 9)) true,
+       .fwd .tauSelCtx false, .fwd .outClose false, .helper (.primRet 0), .helper (.deliver 0)]).map
+      (fun s => (s.2.released, s.2.helpers, s.2.cancels, s.2.bufs))) = some (true, [], 1, [(0, 0)]) := by
+  decide
+
+/-- The unilateral return steps that `C02_progress` relies on are REAL steps of the product: whenever Forward's model
+    may take the error return of `o` on its own (ctx done, aware adapter — `unilateral`), the adapter of `o` can take its
+    ctx.Done branch, so the synchronised product step exists. Together with `C02_progress` (which picks such a step
+    whenever a goroutine is parked in a call and the context is done) the awareness hypothesis is discharged per
+    operation by the helper model instead of being assumed. -/
+theorem C02_product_unilateral_return_enabled (p : Params) (q : GB.WCtx.Params) (hf : q.fresh = true) (o : Op)
+    (s : GB.Prod.PState M E) (hr : GB.Prod.PReachable p q o s) (l : Label M E) (f' : State M E)
+    (hs : step p s.1 l = some f') (hu : unilateral p s.1 l = true) (hro : retOf l = some o) :
+    (GB.Prod.pstep p q o s (.fwd l true)).isSome = true := by
+  obtain ⟨hS, _, _⟩ := GB.Prod.pinv_reach p q hf o s hr
+  have hp := (pend_ret p o s.1 f' l hS hs hro).2
+  have hce : s.1.ctx.isSome = true ∧ GB.Prod.isErrRet l = true := by
+    cases l <;> simp [retOf] at hro <;> (rename_i r; cases r <;> simp_all [unilateral, GB.Prod.isErrRet, errRetOf])
+  have hen := C02_product_ctx_return_enabled p q hf o s hr hp hce.1
+  have hnc : callOf l ≠ some o := by
+    have := (GB.Prod.ret_class o l hro).1; rw [this]; simp
+  cases hst : GB.WCtx.step q s.2 .takeCtx with
+  | none => rw [hst] at hen; cases hen
+  | some a' => simp [GB.Prod.pstep, hs, GB.Prod.adapterLabel, hnc, hro, hce.2, hst]
